@@ -56,7 +56,14 @@ class Parser(Emitter):
             fn = formulas.get_for(name)
         if fn is None:
             raise formulaserror.NAME
-        result['value'] = fn(*args)
+        try:
+            result['value'] = fn(*args)
+        except Exception as e:
+            # an error raised inside a function is the value of the call, so that
+            # enclosing operators propagate it and IFERROR/ISERROR & co. can see it
+            if self.debug:
+                traceback.print_exc()
+            result['value'] = formulaserror.from_message(e)
 
         def valsetter(new_value):
             if new_value is not None:
